@@ -2,6 +2,7 @@
 #include <vector>
 
 #include "Compiler/include/ParserGenerator/lrdea.hpp"
+#include "VM/include/verif_hook.hpp"
 
 using namespace Theo;
 
@@ -38,6 +39,7 @@ static std::vector<Grammar::Symbol> get_follow_string(Grammar::Alternative &a,
 std::set<LRElement> Theo::hull(std::set<LRElement> I, Grammar &G) {
   bool changed = true;
   while (changed) {
+    THEO_VERIF_POINT(LR_HULL_ROUND, I.size(), 0);
     changed = false;
     for (const LRElement &elem : I) {
       Grammar::Alternative a = fetch_right(elem, G);
@@ -125,6 +127,7 @@ std::vector<LRState> Theo::elements(Grammar::Symbol S, Grammar::Symbol eof,
   std::map<LRState, int> registry = {{init, 0}};
 
   for (unsigned int i = 0; i < result.size(); i++) {
+    THEO_VERIF_POINT(LR_ELEMENTS, i, result.size());
     // fetch jump characters
     std::set<Grammar::Symbol> possible_transitions =
         get_befores(result[i].elements, G);
